@@ -553,12 +553,13 @@ class Inliner:
         if kw_map is not None:
             ren[kw_map[0]] = kw_map[1]
         body = [norm._Rename(ren).visit(s) for s in body]
-        body = [norm._Subst(dict(mapping)).visit(s) for s in body]
         if skip and isinstance(call.func, ast.Attribute) and isinstance(call.func.value, ast.Call) and u(call.func.value.func) == "super":
             pass        # super().m(..): the receiver is self itself
         elif skip and isinstance(call.func, ast.Attribute) and not (isinstance(call.func.value, ast.Name) and call.func.value.id == "self"):
+            # (in the same pass as the parameters: an argument that mentions the caller's `self` is not the callee's receiver)
             selfname = (callee.args.posonlyargs + callee.args.args)[0].arg
-            body = [norm._Subst({selfname: call.func.value}).visit(s) for s in body]
+            mapping[selfname] = call.func.value
+        body = [norm._Subst(dict(mapping)).visit(s) for s in body]
 
         def on_return(v, node):
             if mode == "expr":
@@ -1817,6 +1818,12 @@ class Canon:
                         return m, False, prep
                     return None
                 return m, True, prep
+            if isinstance(f, ast.Attribute) and norm.is_reference(f.value) and f.attr.startswith("_") and not f.attr.startswith("__") and f.attr not in keep:
+                # r._m(..) with _m a private method no table knows, defined by a few classes of the program: whatever r is, the call
+                # runs the definition of r's class: `if isinstance(r, A): <A._m> elif isinstance(r, B): <B._m> ..` (devirtualised)
+                d = self._dispatcher(f.attr, module, known)
+                if d is not None:
+                    return d, True, prep
             if isinstance(f, ast.Name):
                 name = f.id
                 if name in keep:
@@ -1834,6 +1841,101 @@ class Canon:
                         return r, False, prep
             return None
         return lookup
+
+    def _dispatcher(self, name, module, known):
+        key = (name, module.name)
+        cache = self.__dict__.setdefault("_dispatchers", {})
+        if key in cache:
+            return cache[key]
+        cache[key] = None
+        definers = [(c, c.methods[name], m_) for m_ in self.prog.modules.values() for c in m_.classes.values() if name in c.methods]
+        if not definers or len(definers) > 4 or any(k_.endswith("." + name) for k_ in known if not k_.startswith(("fn:", "class:", "const:"))):
+            return None
+        sigs = set()
+        for c, m, _ in definers:
+            a = m.args
+            if m.decorator_list or a.vararg or a.kwarg or a.kwonlyargs or a.posonlyargs or not a.args or _contains(m, (ast.Yield, ast.YieldFrom, ast.Await)):
+                return None
+            if any(isinstance(n, ast.Call) and u(n.func) == "super" for n in ast.walk(m)):
+                return None
+            sigs.add((len(a.args), len(a.defaults)))
+        if len(sigs) != 1:
+            return None
+        # subclasses before their bases (isinstance is tested in order)
+        definers.sort(key=lambda t: -len(t[0].mro))
+        first = definers[0][1]
+        params = [a.arg for a in first.args.args]
+        arms = []
+        for c, m, m_ in definers:
+            ren = {a.arg: p_ for a, p_ in zip(m.args.args, params) if a.arg != p_}
+            body = [copy.deepcopy(x) for x in real_body(m)]
+            if ren:
+                if norm._assigned_names(body) & set(ren.values()):
+                    return None
+                body = [norm._Rename(ren).visit(x) for x in body]
+            body = self._respell(body, m_, module)
+            if not _terminates(body):
+                body = body + [ast.Return(value=None)]
+            arms.append((c, body))
+        if len(arms) == 1:
+            body = arms[0][1]
+        else:
+            tail = [ast.Raise(exc=ast.Call(func=ast.Name(id="AttributeError", ctx=ast.Load()), args=[ast.Constant(name)], keywords=[]), cause=None)]
+            for c, b_ in reversed(arms):
+                test = ast.Call(func=ast.Name(id="isinstance", ctx=ast.Load()), args=[ast.Name(id=params[0], ctx=ast.Load()), ast.Name(id=c.name, ctx=ast.Load())], keywords=[])
+                tail = [ast.If(test=test, body=b_, orelse=tail)]
+            body = tail
+        d = ast.FunctionDef(name=name, args=copy.deepcopy(first.args), body=body, decorator_list=[], returns=None, type_comment=None, type_params=[])
+        ast.copy_location(d, first)
+        ast.fix_missing_locations(d)
+        self._keepalive.append(d)
+        cache[key] = d
+        return d
+
+    def _respell(self, body, src, dst):
+        """names of a body written in module src, as module dst spells them (`tys.TypeBound` read inside hugr.tys is `TypeBound`)"""
+        if src is dst:
+            return body
+        back = {}
+        for alias, dotted in dst.imports.items():
+            back.setdefault(dotted, alias)
+
+        class R(ast.NodeTransformer):
+            def visit_Attribute(self, node):
+                ch = norm._attr_chain(node)
+                if ch is not None and ch[0] in src.imports and isinstance(node.ctx, ast.Load):
+                    dotted = src.imports[ch[0]]
+                    if dotted == dst.name and len(ch) >= 2 and (ch[1] in dst.classes or ch[1] in dst.functions or ch[1] in dst.assigns):
+                        e = ast.Name(id=ch[1], ctx=ast.Load())
+                        for a_ in ch[2:]:
+                            e = ast.Attribute(value=e, attr=a_, ctx=ast.Load())
+                        return ast.copy_location(e, node)
+                    if dotted in back and back[dotted] != ch[0]:
+                        e = ast.Name(id=back[dotted], ctx=ast.Load())
+                        for a_ in ch[1:]:
+                            e = ast.Attribute(value=e, attr=a_, ctx=ast.Load())
+                        return ast.copy_location(e, node)
+                    return node
+                return self.generic_visit(node)
+
+            def visit_Name(self, node):
+                if not isinstance(node.ctx, ast.Load):
+                    return node
+                if node.id in src.imports:
+                    dotted = src.imports[node.id]
+                    mn, _, nm = dotted.rpartition(".")
+                    if mn == dst.name:
+                        return ast.copy_location(ast.Name(id=nm, ctx=ast.Load()), node)
+                    if dotted in back and back[dotted] != node.id:
+                        return ast.copy_location(ast.Name(id=back[dotted], ctx=ast.Load()), node)
+                elif node.id in src.classes or node.id in src.functions:
+                    dotted = f"{src.name}.{node.id}"
+                    if dotted in back:
+                        return ast.copy_location(ast.Name(id=back[dotted], ctx=ast.Load()), node)
+                    if src.name in back:
+                        return ast.copy_location(ast.Attribute(value=ast.Name(id=back[src.name], ctx=ast.Load()), attr=node.id, ctx=ast.Load()), node)
+                return node
+        return [ast.fix_missing_locations(R().visit(x)) for x in body]
 
     # ---- call layout ---------------------------------------------------------------------
     def _sig_index(self):
